@@ -69,7 +69,9 @@ func (p plainIO) Read(c context.Context, a coreiface.CoreAPI, id cid.Cid) (forma
 func (p plainIO) DecodeRawEntry(n format.Node, h cid.Cid, pr idp.Interface) (iface.IPFSLogEntry, error) {
 	return p.io.DecodeRawEntry(n, h, pr)
 }
-func (p plainIO) DecodeRawJSONLog(n format.Node) (*iface.JSONLog, error) { return p.io.DecodeRawJSONLog(n) }
+func (p plainIO) DecodeRawJSONLog(n format.Node) (*iface.JSONLog, error) {
+	return p.io.DecodeRawJSONLog(n)
+}
 
 // pickIO: codec configuration. CODEC=1: the real default CBOR codec; CODEC=2: the real CBOR codec with a link
 // key (encrypted links); NOPRESIGN=1: an IO without the optional PreSign step (like the legacy protobuf codec);
